@@ -154,8 +154,18 @@ def run(ctx):
             for d in fields.values():
                 for k in d:
                     ctx.bump('kind.' + k)
+            given = {'fields': noisy}
+            meta = None
+            if rng.random() < 0.4:
+                # creation metadata with boundary values (no records, empty names): written, so it must come back
+                meta = {'local_time': '2024-01-02 03:04:05', 'utc_time': '2024-01-02 03:04:05',
+                        'creator': rng.choice(['TDDA 2.0', '']), 'source': rng.choice(['data.csv', '']),
+                        'host': rng.choice(['h', '']), 'user': rng.choice(['me', '']),
+                        'n_records': rng.choice([0, 0, 7]), 'n_selected': rng.choice([0, 7])}
+                given = {'creation_metadata': meta, 'fields': noisy}
+                ctx.bump('with_creation_metadata')
             try:
-                c0 = load_from({'fields': noisy})
+                c0 = load_from(given)
                 t1 = c0.to_json()
             except Exception as e:
                 ctx.fail(case, 'loading / serialising a documented-format constraint set raised %s: %s'
@@ -185,9 +195,15 @@ def run(ctx):
                         ctx.fail(case, 'field %r kind %s: given %r, written %r' % (nm, k, v, w.get(k, '<absent>')),
                                  finding=fnd)
             # ---- cycles
-            path = os.path.join(work, 'c%d.tdda' % it)
+            # (the same two paths are written over and over, as a file that is re-saved is)
+            path = os.path.join(work, 'c%d.tdda' % (it % 2))
             text = t1
             ok = True
+            if meta is not None:
+                wm = json.loads(t1).get('creation_metadata', {})
+                lost = {k: v for k, v in meta.items() if wm.get(k) != v}
+                if lost:
+                    ctx.fail(case, 'creation metadata given as %r is written as %r' % (lost, {k: wm.get(k, '<absent>') for k in lost}))
             for cyc in range(rng.randint(1, 3)):
                 with open(path, 'w', encoding='utf-8') as f:
                     f.write(text)
@@ -200,6 +216,15 @@ def run(ctx):
                     ok = False
                     break
                 # a set loaded from a path records that path as creation metadata; everything else is identical
+                m1_, m2_ = (json.loads(x).get('creation_metadata', {}) for x in (text, t2))
+                m1_.pop('tddafile', None)
+                m2_.pop('tddafile', None)
+                if m1_ != m2_:
+                    ctx.fail(case, 'cycle %d: creation metadata changed after write/load: %r -> %r'
+                             % (cyc + 1, {k: v for k, v in m1_.items() if m2_.get(k) != v},
+                                {k: m2_.get(k, '<absent>') for k in m1_ if m2_.get(k) != m1_[k]}))
+                    ok = False
+                    break
                 if strip_meta_text(t2) != strip_meta_text(text) or (cyc > 0 and t2 != text):
                     ctx.fail(case, 'cycle %d: text changed after write/load: %r -> %r'
                              % (cyc + 1, first_diff(text, t2), first_diff(t2, text)))
